@@ -193,6 +193,7 @@ def build_op(ctx, rng, x, allow_rank_change=True):
         k = 1 if name == "matmul_partner" else rng.randint(1, nd)
         axa = rng.sample(range(nd), k) if name != "matmul_partner" else [1]
         seed = rng.getrandbits(40)
+        plabel = rng.randint(10**6, 10**8)
         mode = rng.choice(["fused", "blockwise", "auto"])
         left = rng.random() < 0.5 and name != "matmul_partner"
         import random as _r
@@ -200,7 +201,7 @@ def build_op(ctx, rng, x, allow_rank_change=True):
         def partner(a):
             r2 = _r.Random(seed)
             ib = [gen.conj_index(sr, a.indices[i]) for i in axa] + [gen.rand_index(sr, r2, sym, maxd=2) for _ in range(r2.randint(0, 1 if name == "matmul_partner" else 2))]
-            return gen.make_array(sr, r2, sym, ib, fermionic=True, kind="static" if type(a).static_symmetry else "generic_str", values=gen.Values(r2, "int"), label=999983, nphase=2, sparsity=0.2)
+            return gen.make_array(sr, r2, sym, ib, fermionic=True, kind="static" if type(a).static_symmetry else "generic_str", values=gen.Values(r2, "int"), label=plabel, nphase=2, sparsity=0.2)
 
         if name == "matmul_partner":
             return name, (lambda a: a @ partner(a)), None
@@ -392,7 +393,62 @@ def case_program(ctx, rng):
             break
 
 
+GAUGE = ("qr", "qr_stab", "svd", "svd_truncated", "eigh", "construct")
+
+
+def case_table(ctx, rng):
+    """The full operation table of symv/program.py issued on the lazy array and on its
+    synchronised twin (same fresh partners, same arguments)."""
+    from symv.program import Program, deep_twin
+
+    sr = ctx.sr
+    L, exact = make_lazy(ctx, rng, matrix=rng.random() < 0.25)
+    if not L.blocks:
+        return
+    E = twin(sr, L)
+    dtype = str(next(iter(L.blocks.values())).dtype)
+    prog = Program(ctx, rng, sym=R.symname(L), fermionic=True, dtype=dtype, values="int" if exact else "gauss", kind="static" if type(L).static_symmetry else "generic_str")
+    wit = {"x": describe(L, True)}
+    for _ in range(6):
+        prog.pool = [L]
+        st = prog.pick()
+        if st is None:
+            return
+        name, operands, f, info = st
+        if name.startswith(GAUGE) or not any(v is L for v in operands):
+            continue
+        if info.get("inplace"):
+            Lc, Ec = deep_twin(L), deep_twin(E)
+        else:
+            Lc, Ec = L, E
+        opsL = [Lc if v is L else v for v in operands]
+        opsE = [Ec if v is L else v for v in operands]
+        tol = None if exact else 1e-9
+        if name in ("norm",):
+            tol = 1e-12 if exact else 1e-9
+        oL, oE = ctx.call(f, *opsL), ctx.call(f, *opsE)
+        ctx.evaluated()
+        ctx.count("op", "table:" + name)
+        ctx.count("stream", "table")
+        pend = has_pending(L)
+        ctx.count("pending", "yes" if pend else "no")
+        w = dict(wit, op=name)
+        if oL.ok != oE.ok:
+            ctx.violation(f"{name}-raises-on-one-copy", f"{name}: lazy -> {repr(oL.exc) if not oL.ok else 'ok'}, synchronised -> {repr(oE.exc) if not oE.ok else 'ok'}", w)
+            continue
+        if not oL.ok:
+            ctx.count("both-raise", f"{name}:{oL.excname}")
+            continue
+        m = same_value(oL.value, oE.value, tol)
+        if m:
+            ctx.violation(f"pending-signs-observable:{name}", f"{name}: result on the array with pending signs differs from the result on its synchronised copy: {m}", w)
+        elif pend:
+            ctx.nontrivial(("table", name, struct_sig(L), tuple(sorted(map(repr, phases_of(L))))))
+
+
 def run(ctx):
+    for _, rng in ctx.cases("table", ctx.budget(20000, 400000)):
+        ctx.run_case(case_table, ctx, rng)
     for _, rng in ctx.cases("single", ctx.budget(90000, 1500000)):
         ctx.run_case(case_single, ctx, rng)
     for _, rng in ctx.cases("programs", ctx.budget(18000, 300000)):
